@@ -181,6 +181,26 @@ CHECKS['C09'] = dict(
     technique='generated config + induction over name/cell lists + per-run cfg_ok + vm_compute correspondence + differential oracle',
     design='4/C09')
 
+CHECKS['C08'] = dict(
+    text='Kernel-checked for all programs of the model AST (mutual structural induction): the bound / global / nonlocal / parameter '
+         'classification of every def and lambda computed by the executable model of the activity analysis equals CPython\'s binding rule, '
+         'modulo the property\'s two exemptions; reads, writes and deletes of simple statements are in the statement\'s sets. The model is '
+         'tied by exact correspondence of all recorded Scope objects with activity.resolve, the binding-rule spec by symtable and by '
+         'instrumented CPython runs (sys.monitoring). Free variables and statements with lambdas/comprehensions are validated by '
+         'correspondence and oracle only (partial); two known findings with refuted witnesses.',
+    note=NOTE_BASE + 'The annotations set and call ARGS_SCOPE are not modelled; free variables compared in the inclusive sense.',
+    technique='executable Gallina model + structural-induction proofs + differential correspondence (symtable, sys.monitoring)',
+    design='4/C08')
+CHECKS['C17'] = dict(
+    text='Kernel-checked theorems over trees with node identities: template instantiation never duplicates or shares a node, and the '
+         'context adjuster yields position-consistent contexts wherever its handler table is locally correct; re-proved each run for the '
+         'handler table and the templates extracted from source. Tied by identity-aware correspondence on recorded real templates.replace '
+         'calls. Partial: unparse/parse/compile/import and whole-pipeline composition are validated by the oracle (captured transform_ast '
+         'tree: identity walk, ctx check, compile, parse(unparse(t)) == t, to_code equals the loaded module text), not proved.',
+    note=NOTE_BASE + 'The pos_rule spec is validated against CPython\'s AST validator; the model is total, ValueError paths are outside it.',
+    technique='table-generic induction + generated tables + identity-aware correspondence + loader oracle',
+    design='4/C17')
+
 NOT_YET = {}
 
 
